@@ -113,6 +113,22 @@ Theorem C04_slots_alone : forall n i PQ,
 Proof. exact slots_alone. Qed.
 Print Assumptions C04_slots_alone.
 
+(* how the hypothesis sinv comes about: it holds when the engine holds no generator, and starting a query in slot q
+   whose argument terms are over a set of cells Pnew (which contains the cells the new query will allocate: they are named
+   after the engine's start counter) extends the family by PQ q := Pnew; a generator that was in the slot is dropped.
+   With Pnew disjoint from the other PQ q' this is "simultaneously suspended queries over disjoint variables". *)
+Theorem C04_slots_none : forall n i PQ e h, cursors e = [] -> (forall q, closed (PQ q) h) -> sinv n i PQ e h.
+Proof. exact sinv_nocursors. Qed.
+Print Assumptions C04_slots_none.
+
+Theorem C04_slots_start : forall fuel n i PQ q Pnew nm args e h e' h' ob,
+  sinv n i PQ e h ->
+  Forall (tin Pnew) (map (rn (ucell n i)) args) -> (forall k, Pnew (ccell n i (nstart e) k) = true) -> closed Pnew h ->
+  estep fuel n i (OStart q nm args) e h = (e', h', ob) ->
+  sinv n i (fun q' => if Nat.eqb q' q then Pnew else PQ q') e' h'.
+Proof. exact sinv_start. Qed.
+Print Assumptions C04_slots_start.
+
 (* the same for two bare generators (cursors) over one database: every interleaving of their next() calls
    gives each the result sequence it has alone *)
 Theorem C04_same_engine_disjoint : forall (P1 P2 : nat -> bool) (f1 f2 : nat -> nat),
